@@ -5,6 +5,9 @@ _KERNELS = ['mulmm', 'mulTm', 'mulmT', 'mulTT', 'T1', 'T2', 'eye1', 'eye2', 'tri
 
 SPEC = dict(
     harness=['h_linalg_kern.c'],
+    # the default (double) build runs the full harness; the other two real widths run a compact type-generic companion
+    configs=lambda tier: [dict(name='f64'), dict(name='f32', real=4, harness=['h_linalg_kern_w.c']), dict(name='f80', real=16, harness=['h_linalg_kern_w.c'])],
+    parallel_configs=3,
     level='exploration',
     rule='every call of one of the 19 kernels (a_real_mulmm/mulTm/mulmT/mulTT, T1, T2, eye1/2, tri1/2, diag/diag1/diag2, triL/triL1/triL2, '
          'triU/triU1/triU2) is one evaluation: the whole result array is compared BITWISE with an index-by-definition reference (int64 '
@@ -21,7 +24,7 @@ SPEC = dict(
                 'thorough': 'shape sets only (contents are sampled): all (row,inner,col) in [1,12]^3 for each of the four products (50 random '
                             'contents each); all (m,n) in [1,14]^2 for T2, eye2, tri2, diag2, triL2, triU2 and all n in [1,14] for T1, eye1, '
                             'tri1, diag, diag1, triL, triL1, triU, triU1 (50 contents each)'},
-    require=[k + '-vs-definition' for k in _KERNELS] +
+    require=['w-products-vs-definition', 'w-transposes-exact'] + [k + '-vs-definition' for k in _KERNELS] +
             ['result-cells-compared-bitwise', 'guard-bands-intact', 'inputs-unchanged', 'T1oT1-identity', 'T1-eq-T2-on-square',
              'T2oT2-identity', 'exhaustive-product-shape-cases', 'exhaustive-rect-shape-cases', 'random-product-batches',
              'random-rect-batches'],
